@@ -579,8 +579,8 @@ func shrink(j job, rf ReplayFile, key string, budget time.Duration, maxAttempts 
 	for len(cur) > 0 && cur[len(cur)-1] == 0 {
 		cur = cur[:len(cur)-1]
 	}
-	rf.Choices = cur
 	rf.Note = fmt.Sprintf("minimised from %d to %d choices in %d replay attempts", len(rf.Choices), len(cur), attempts)
+	rf.Choices = cur
 	return rf
 }
 
